@@ -116,17 +116,17 @@ def obligations(tier, seed):
            grid=[dict(seq_pp, C10_K=3, C10_Q0=0, C10_Q1=0, C10_Q2=0), dict(seq_pp, C10_K=3, C10_Q0=2, C10_Q1=2, C10_Q2=2), dict(seq_pp, C10_K=3, C10_Q0=0, C10_Q1=1, C10_Q2=0),
                  dict(seq_pp, C10_K=3, C10_O1="'G'", C10_O2="'P'", C10_Q0=0, C10_Q1=0, C10_Q2=0)],
            quick_grid=[dict(seq_pp, C10_K=3, C10_Q0=0, C10_Q1=0, C10_Q2=0)], reach=["end", "seq_hit"], timeout=900, mem_gb=5, **common),
-        # ---- findings: the same SEQ-2 harness with ONE more assertion each; expected REFUTED on the current tree (see report / known_findings)
-        Ob("finding_subno_range", func="h_seq",
+        # ---- the same SEQ-2 harness with ONE more assertion each; both were refuted on the pinned tree (fixed in /repo: f2b89ba, 9fdacfa; reverse patches seeded/FIX-cache-*)
+        Ob("subno_range_covers_cached", func="h_seq",
            desc="SEQ-2 as seq_put_put plus: the subpage range recorded for a page number (ttx_page_stat.subno_min/subno_max - what vbi_cache_hi_subno returns and "
-                "what _vbi_cache_foreach_page/vbi_search uses to enumerate subpages) covers every cached subpage 0..0x79 of that page.  REFUTED: put(p.0) then "
-                "put(p.1) leaves subno_min = 1 with p.0 cached (cache_network_add_page treats subno_min == 0 as `none yet`)",
+                "what _vbi_cache_foreach_page/vbi_search uses to enumerate subpages) covers every cached subpage 0..0x79 of that page (pinned tree: put(p.0) then "
+                "put(p.1) left subno_min = 1 with p.0 cached)",
            encodes=["_vbi_cache_put_page", "cache_network_add_page"], bounds="2 operations; " + ALPHA, defines=dict(C10_RANGE=None),
            grid=[dict(seq_pp, C10_Q0=0, C10_Q1=0)], reach=["end"], timeout=900, **common),
-        Ob("finding_subno_min_gt_max", func="h_seq",
+        Ob("subno_min_le_max", func="h_seq",
            desc="SEQ-2 as seq_put_put plus: whenever a page number has cached subpages, subno_min <= subno_max (otherwise _vbi_cache_foreach_page skips the page "
-                "number, and never returns if it is the only one cached).  REFUTED: clock-page sub-codes >= 0x100 are truncated to uint8_t, e.g. put(p.0x1201) "
-                "then put(p.0x0100) gives subno_min = 1, subno_max = 0",
+                "number, and never returns if it is the only one cached) (pinned tree: clock-page sub-codes >= 0x100 were truncated to uint8_t, put(p.0x1201) "
+                "then put(p.0x0100) gave subno_min = 1, subno_max = 0)",
            encodes=["_vbi_cache_put_page", "cache_network_add_page"], bounds="2 operations; " + ALPHA, defines=dict(C10_MINMAX=None),
            grid=[dict(seq_pp, C10_Q0=0, C10_Q1=0)], reach=["end"], timeout=900, **common),
     ]
